@@ -45,3 +45,22 @@ Theorem C12_colwise_reconstruction_inverts :
     forall r q, (r < n)%nat -> (q < n)%nat -> mmf S n A (reconstruct_colwise n X P) r q = if (r =? q)%nat then s1 S else s0 S.
 Proof. exact colwise_inverse. Qed.
 Print Assumptions C12_colwise_reconstruction_inverts.
+
+(** * Dependency on the triangular kernels.  The block / recursive strategies compute their off-diagonal blocks
+    with tmatmul and tinverse (unary_lu_op.h, unary_inv_op.h); what is proved about those kernels is C17.  The tie of
+    the C17 model to the source - k-range clipping and the drivers' blocking, call sites and tag passing, as translated
+    by lib/cxx2v.py on this run - is therefore re-checked here as well. *)
+From FastorV Require Import Model.Cfg Model.TMatmul Gen.Generated Proofs.GenEq.
+Theorem C12_depends_on_tmatmul_source_tie :
+  (forall tl tr K R C i j, gen_find_kfirst tl tr i j = find_kfirst tl tr i j /\ gen_find_klast tl tr K R C i j = find_klast tl tr K R C i j) /\
+  (forall c W M K N,
+     gen_tmbase_calls (outer_block c) (inner_block c) W M K N = model_tm_calls c W M N false /\
+     gen_tmbase_masked_calls (outer_block c) (inner_block c) W M K N = model_tm_calls c W M N true /\
+     gen_tmbase_loops (outer_block c) (inner_block c) W M K N = model_loops c W M N false /\
+     gen_tmbase_masked_loops (outer_block c) (inner_block c) W M K N = model_loops c W M N true).
+Proof.
+  split.
+  - intros. exact (conj (gen_find_kfirst_eq tl tr i j) (gen_find_klast_eq tl tr K R C i j)).
+  - intros. exact (conj (gen_tmbase_calls_eq c W M K N) (conj (gen_tmbase_masked_calls_eq c W M K N)
+      (conj (gen_tmbase_loops_eq c W M K N) (gen_tmbase_masked_loops_eq c W M K N)))).
+Qed.
